@@ -74,6 +74,22 @@ def only(paths, what):
     raise AnalysisError(f"{what}: expected one result, found {len(vals)} different ones over {len(r)} returning trace partitions")
 
 
+def each(paths, what):
+    """[(tag, path)] - one entry per distinct numeric result among the returning trace partitions (tag = the
+    decisions that select it); every entry has to satisfy whatever is claimed of "the" result"""
+    r = returns(paths)
+    vals = {}
+    for p in r:
+        v = p.value
+        k = nf.key(v.nf) if isinstance(v, Num) else repr(v)[:2000]
+        vals.setdefault(k, p)
+    if not vals:
+        raise AnalysisError(f"{what}: no returning trace partition")
+    if len(vals) == 1:
+        return [("", next(iter(vals.values())))]
+    return [(" [" + ", ".join(("" if c else "not ") + d[:60] for _k, c, d in p.decisions) + "]", p) for p in vals.values()]
+
+
 def val_nf(it_or_none, v):
     if isinstance(v, Num):
         return v.nf
